@@ -14,14 +14,6 @@ def qualifiers(m, op, pre, outcome):
     if outcome[0] != 0:
         q.append('raised')
     if k == 'delete':
-        dead = koracle.subtree(m, pre, op[1]) if op[2] else [op[1]]
-        for od in pre['objs']:
-            for fi, vals in od['feats'].items():
-                fd = m.fd(fi)
-                if fd['kind'] == 'ref' and fd['many'] and not fd['unique']:
-                    os_ = koracle.objs_of(vals)
-                    if any(os_.count(t) > 1 for t in dead):
-                        q.append('held-twice-in-nonunique-reference')
         return sorted(set(q))
     if k in ('delete', 'rappend', 'rremove', 'rextend'):
         if k in ('rappend',):
